@@ -147,7 +147,7 @@ def run(ctx):
     r5 = ctx.rule("R5", "composition: every not-complete prerequisite is handed over (C02.R2) and its state is the scheduler's live view (C08.R3)", min_instances=4)
     from .shared import import_rules
     import_rules(ctx, r5, "C02", only={"R1", "R2", "R1b"})
-    import_rules(ctx, r5, "C08", only={"R2", "R3"})
+    import_rules(ctx, r5, "C08", only={"R1", "R2", "R3"})   # R1: a job the scheduler holds as suspended, held or requeued is alive - its dependents must wait for it
 
 
 def rule_tracked_dump(ctx, r):
